@@ -20,5 +20,5 @@ def run(rep, tier):
     kernels.oracle_self_check(rep)
     operation_contracts(rep)
     kernels.run_scope(rep, B.STATE_FILES + ["photon_weave/operation/operation.py", "photon_weave/_math/ops.py"])
-    B.run_b(rep, morecells.invalid_cells(tier, common.seed()), ["C17"])
+    B.run_b(rep, morecells.invalid_cells(tier, common.seed()), ["C17"], tier=tier)
     B.run_b(rep, morecells.after_measure_cells(tier, common.seed()), ["C05"], explore=False, tier=tier)
